@@ -23,7 +23,7 @@ Print Assumptions C06_wait_delivers.
 
 (* Unfolding k-1 failed attempts: whatever happened in them, the request continues from the
    world they leave behind, with k-1 transmissions made. *)
-Theorem C06_skip_failed_set : forall E (B : backend E) sk fuel mga req payload n k w wk,
+Theorem C06_skip_failed_set : forall E (B : backend E) sk fuel (mga : bool) req payload n k w wk,
   failed_attempts B sk fuel (if mga then RSetMga else RSet) req payload k w wk ->
   set_attempts B sk fuel (k + n) mga req payload w = set_attempts B sk fuel n mga req payload wk
   /\ exists tr, wtrace wk = wtrace w ++ tr /\ count_tx tr = k.
@@ -48,11 +48,11 @@ Theorem C06_set_answer_after_k : forall E (B : backend E) sk fuel rq payload k w
   rx_unfold B (wenv w1) (length evs) = (evs, e') ->
   delivers [CID_ACK; CID_NAK] (wnow w1) (wnow w1 + sdelay (wsrv w1)) evs 5 i pa ->
   (i = 1 /\ ack_names pa (rq_cid rq) \/ i = 0) ->
-  reg_lookup (sreg (wsrv w1)) (5, i) = Some ((if i =? 1 then "UbxAckAck" else "UbxAckNak")%string, ack_kind) ->
+  reg_lookup (sreg (wsrv w1)) (5, i) = Some ((if i =? 1 then "UbxAckAck"%string else "UbxAckNak"%string), ack_kind) ->
   build_with_data sk ack_kind pa = Ok d ->
   (length evs <= fuel)%nat ->
   exists w', do_request B sk fuel RSet rq w
-             = (Return (Some (mkRFrame (if i =? 1 then "UbxAckAck" else "UbxAckNak")%string (5, i) pa d)), w')
+             = (Return (Some (mkRFrame (if i =? 1 then "UbxAckAck"%string else "UbxAckNak"%string) (5, i) pa d)), w')
     /\ count_tx (new_events w w') = S k.
 Proof. exact set_answer_after_k. Qed.
 Print Assumptions C06_set_answer_after_k.
